@@ -23,7 +23,54 @@ pub fn pool() -> Vec<Vec<u8>> {
     let me = enc::me_ident(4, 3, &[1, 2, 3, 4, 5, 6, 7, 8]);
     let mut bad = enc::df17(5, 0x4840d6, &me);
     bad[13] ^= 0x55;
-    vec![enc::df17(5, 0x4840d6, &me), enc::df4(0, 0, 0, enc::ac13_q(1560), 0x3c6444), enc::df11(5, 0x39c424, 0), bad, enc::df17(5, 0x4840d7, &me), enc::df20(0, 0, 0, enc::ac13_q(1000), &[0; 7], 0xabcdef)]
+    let short4 = enc::df4(0, 0, 0, enc::ac13_q(1560), 0x3c6444);
+    let short11 = enc::df11(5, 0x39c424, 0);
+    // 6 / 7: the two short frames followed by seven zero bytes, as a receiver that always reports 14 bytes would send
+    // them: other byte strings than the short frames themselves (whether they decode is asked of the decoder)
+    let pad = |f: &Vec<u8>| f.iter().copied().chain([0u8; 7]).collect::<Vec<u8>>();
+    let first = enc::df17(5, 0x4840d6, &me);
+    // 8: another aircraft's identification with the same three parity bytes as frame 0
+    let twin = same_parity_frame(&first, 5, &enc::me_ident(4, 1, &[20, 23, 9, 14, 0x20, 0x20, 0x20, 0x20]));
+    vec![first, short4.clone(), short11.clone(), bad, enc::df17(5, 0x4840d7, &me), enc::df20(0, 0, 0, enc::ac13_q(1000), &[0; 7], 0xabcdef), pad(&short4), pad(&short11), twin]
+}
+
+/// An identification squitter of *another* aircraft whose last three bytes (the parity field) equal those of `target`:
+/// the CRC is linear, so the 24 address bits that give a wanted parity are the solution of a 24 x 24 system over GF(2).
+/// Two different frames of two different aircraft that share their checksum bytes — a coincidence a table keyed by
+/// part of the frame does not survive.
+pub fn same_parity_frame(target: &[u8], ca: u8, me: &[u8; 7]) -> Vec<u8> {
+    let par = |f: &[u8]| ((f[11] as u32) << 16) | ((f[12] as u32) << 8) | f[13] as u32;
+    let p0 = par(&enc::df17(ca, 0, me));
+    let mut rows: Vec<(u32, u32)> = (0..24).map(|i| (par(&enc::df17(ca, 1 << i, me)) ^ p0, 1u32 << i)).collect();
+    let mut want = par(target) ^ p0;
+    let mut addr = 0u32;
+    // Gaussian elimination: rows are (syndrome contribution, address bits that produce it)
+    for bit in (0..24).rev() {
+        let Some(k) = rows.iter().position(|r| r.0 >> bit & 1 == 1 && r.0 >> (bit + 1) == 0) else { continue };
+        let piv = rows.remove(k);
+        for r in rows.iter_mut() {
+            if r.0 >> bit & 1 == 1 {
+                r.0 ^= piv.0;
+                r.1 ^= piv.1;
+            }
+        }
+        if want >> bit & 1 == 1 {
+            want ^= piv.0;
+            addr ^= piv.1;
+        }
+    }
+    let f = enc::df17(ca, addr & 0xffffff, me);
+    assert_eq!(f[11..], target[11..], "same_parity_frame: system not solved");
+    assert_ne!(f[..11], target[..11]);
+    f
+}
+
+/// "Decodable" in the property is what the deduplicator's own decoder accepts: both loops (dedup.rs, decode1090) call
+/// `Message::from_bytes((&frame, 0))`, which decodes the message at the front of the buffer and hands back the rest,
+/// so a short reply followed by seven zero bytes is decodable there although `Message::try_from` (C01) refuses it.
+pub fn decodes(f: &[u8]) -> bool {
+    use rs1090::prelude::*;
+    Message::from_bytes((f, 0)).is_ok()
 }
 
 pub fn ts_of(ms: u64) -> f64 {
@@ -254,11 +301,11 @@ fn arrival(nframes: u16, nrx: u16, grid: Vec<u64>) -> impl Strategy<Value = Arri
 }
 
 pub fn run(ctx: &Ctx) {
-    ctx.set_rule("arrival histories over a pool of 6 frames (5 decodable, 1 DF17 with a bad syndrome) x up to 3 receivers, timestamps on an exact millisecond grid (non-decreasing, equal, decreasing, far apart), windows {0,1,2,5,400,450}: exhaustive for length <= 5 (thorough 6) over 2 frames x 2 receivers x 4 grid times x 3 windows; proptest-random up to 200 arrivals. Driven through the real deduplicate_messages (send all, close, drain). Oracle: an executable reference model for the exact output sequence, plus model-free invariants (nothing invented / lost / duplicated, record timestamp = first arrival, receptions in arrival order; for non-decreasing arrivals same-frame records >= window apart and output ordered by first arrival). End to end: overlapping sets of frames are served to the real jet1090 binary through two Beast TCP sources (window 20-150 ms, wall-clock arrivals): nothing invented, per frame the receptions printed equal the receptions sent per receiver, record time = first reception, undecodable frames never appear; and through one source with windows of 1.2-3.1 s: two printed records of the same frame never have first arrivals closer than the window. Non-trivial = >= 1 emitted record with >= 2 receptions; distinct by hash of (history, window).");
+    ctx.set_rule("arrival histories over a pool of 8 frames (5 decodable, 1 DF17 with a bad syndrome, the two short frames padded to 14 bytes with zeros, another aircraft's frame with the same parity bytes as frame 0) x up to 3 receivers, timestamps on an exact millisecond grid (non-decreasing, equal, decreasing, far apart), windows {0,1,2,5,400,450}: exhaustive for length <= 5 (thorough 6) over 2 frames x 2 receivers x 4 grid times x 3 windows; proptest-random up to 200 arrivals. Driven through the real deduplicate_messages (send all, close, drain). Oracle: an executable reference model for the exact output sequence, plus model-free invariants (nothing invented / lost / duplicated, record timestamp = first arrival, receptions in arrival order; for non-decreasing arrivals same-frame records >= window apart and output ordered by first arrival). End to end: overlapping sets of frames are served to the real jet1090 binary through two Beast TCP sources (window 20-150 ms, wall-clock arrivals): nothing invented, per frame the receptions printed equal the receptions sent per receiver, record time = first reception, undecodable frames never appear; and through one source with windows of 1.2-3.1 s: two printed records of the same frame never have first arrivals closer than the window. Non-trivial = >= 1 emitted record with >= 2 receptions; distinct by hash of (history, window).");
     ctx.assume("the implementation's own millisecond clock ((timestamp * 1e3) as u128) is the clock; timestamps are generated mid-millisecond so that the conversion is exact");
     let frames = pool();
-    let decodable: Vec<bool> = frames.iter().map(|f| Message::try_from(f.as_slice()).is_ok()).collect();
-    assert_eq!(decodable, vec![true, true, true, false, true, true], "frame pool decodability");
+    let decodable: Vec<bool> = frames.iter().map(|f| decodes(f)).collect();
+    assert_eq!(decodable[..6], [true, true, true, false, true, true], "frame pool decodability");
     // exhaustive short histories
     let maxlen = ctx.tier.pick(5usize, 6usize);
     let grid = [1000u64, 1001, 1002, 1400];
@@ -329,14 +376,16 @@ pub fn run(ctx: &Ctx) {
         let wide: Vec<u64> = (0..40).map(|k| 10_000 + k * 97).chain([0, 1, 2, 3, 449, 450, 451, 1_000_000, 86_400_000]).collect();
         let hist = prop_oneof![
             // arbitrary order
-            proptest::collection::vec(arrival(6, 3, wide.clone()), 0..60),
+            proptest::collection::vec(arrival(9, 3, wide.clone()), 0..60),
             // non-decreasing arrivals (sorted)
-            proptest::collection::vec(arrival(6, 3, wide.clone()), 0..200).prop_map(|mut v| {
+            proptest::collection::vec(arrival(9, 3, wide.clone()), 0..200).prop_map(|mut v| {
                 v.sort_by_key(|a| a.ms);
                 v
             }),
             // dense bursts: few frames, times within a few ms
             proptest::collection::vec(arrival(3, 3, (5000..5012).collect()), 0..80),
+            // a short frame and the same bytes padded to 14 with zeros, interleaved within a few ms: two different frames
+            proptest::collection::vec(arrival(3, 3, (5000..5012).collect()), 0..40).prop_map(|v| v.into_iter().map(|a| Arrival { frame: [1u16, 6, 2, 0, 8][(a.frame as usize + a.ms as usize) % 5], ..a }).collect()),
         ];
         let caps = prop_oneof![2 => Just((0usize, 0usize)), 1 => (0usize..4, 1usize..4), 1 => (1usize..3, 0usize..2)];
         // the clock: small numbers, today's Unix time, beyond 2^32 s; and the whole history (times and window) stretched
@@ -507,7 +556,7 @@ pub fn scale_cfgs(thorough: bool) -> Vec<ScaleCfg> {
 
 fn scale_strata(ctx: &Ctx) {
     let pool = scale_pool(9000);
-    let decodable: Vec<bool> = pool.iter().map(|f| Message::try_from(f.as_slice()).is_ok()).collect();
+    let decodable: Vec<bool> = pool.iter().map(|f| decodes(f)).collect();
     assert_eq!(decodable.iter().filter(|d| !**d).count(), 9000 / 53, "scale pool decodability");
     let thorough = ctx.tier.pick(false, true);
     let reps = ctx.tier.pick(2u64, 6u64);
@@ -538,7 +587,8 @@ fn scale_strata(ctx: &Ctx) {
     });
 }
 
-/// 14 decodable frames (12 distinct DF17 identifications + DF4 + DF11) and one undecodable, for the CLI runs
+/// 14 decodable frames (12 distinct DF17 identifications + DF4 + DF11), one undecodable, and two more aircraft whose
+/// frames share the parity bytes of frames 0 and 1, for the CLI runs
 pub fn cli_pool() -> Vec<Vec<u8>> {
     let mut v: Vec<Vec<u8>> = (0..12u32).map(|k| enc::df17(5, 0x4840d0 + k * 0x1111, &enc::me_ident(4, 3, &[1, 2, 3, 4, 5, 6, 7, (k % 26 + 1) as u8]))).collect();
     v.push(enc::df4(0, 0, 0, enc::ac13_q(1560), 0x3c6444));
@@ -546,13 +596,18 @@ pub fn cli_pool() -> Vec<Vec<u8>> {
     let mut bad = v[0].clone();
     bad[13] ^= 0x55;
     v.push(bad);
+    // two more aircraft whose frames end in the same three parity bytes as frames 0 and 1
+    let t0 = same_parity_frame(&v[0], 5, &enc::me_ident(4, 1, &[20, 23, 9, 14, 0x20, 0x20, 0x20, 0x20]));
+    let t1 = same_parity_frame(&v[1], 0, &enc::me_ident(4, 2, &[20, 23, 15, 0x20, 0x20, 0x20, 0x20, 0x20]));
+    v.push(t0);
+    v.push(t1);
     v
 }
 
 /// One history through the real decode1090 binary (its own copy of the loop, which also flushes at end of input).
 fn cli_case(ctx: &Ctx, bin: &str, h: &[Arrival], w: u32, frames: &[Vec<u8>]) -> Check {
     use std::io::Write;
-    let decodable: Vec<bool> = frames.iter().map(|f| Message::try_from(f.as_slice()).is_ok()).collect();
+    let decodable: Vec<bool> = frames.iter().map(|f| decodes(f)).collect();
     let rep = json!({"kind": "dedup", "window": w, "history": h.iter().map(|a| json!([a.frame, a.rx, a.ms])).collect::<Vec<_>>(), "via": "decode1090"});
     let fail = |sig: &str, d: String| Failure::new(format!("c10:cli:{sig}"), d, rep.clone());
     let dir = vcore::ev::out_root().join(".tmp");
@@ -870,7 +925,7 @@ pub fn replay(ctx: &Ctx, v: &Value) {
     }
     if v["kind"] == "dedup-scale" {
         let pool = scale_pool(9000);
-        let decodable: Vec<bool> = pool.iter().map(|f| Message::try_from(f.as_slice()).is_ok()).collect();
+        let decodable: Vec<bool> = pool.iter().map(|f| decodes(f)).collect();
         let c = ScaleCfg { frames: v["frames"].as_u64().unwrap_or(1) as u16, receivers: v["receivers"].as_u64().unwrap_or(1) as u16, arrivals: v["arrivals"].as_u64().unwrap_or(0) as u32, gaps: v["gaps"].as_array().map(|a| a.iter().map(|x| x.as_u64().unwrap_or(0)).collect()).unwrap_or_else(|| vec![1]), window: v["window"].as_u64().unwrap_or(450) as u32, swap_every: v["swap_every"].as_u64().unwrap_or(0) as u32 };
         let salt = v["salt"].as_str().and_then(|s| s.parse::<u64>().ok()).unwrap_or(0);
         let prefix = v["prefix"].as_u64().map(|p| p as usize);
@@ -892,7 +947,7 @@ pub fn replay(ctx: &Ctx, v: &Value) {
         return;
     }
     let frames = pool();
-    let decodable: Vec<bool> = frames.iter().map(|f| Message::try_from(f.as_slice()).is_ok()).collect();
+    let decodable: Vec<bool> = frames.iter().map(|f| decodes(f)).collect();
     let hist: Vec<Arrival> = v["history"].as_array().map(|a| a.iter().map(|x| Arrival { frame: x[0].as_u64().unwrap_or(0) as u16, rx: x[1].as_u64().unwrap_or(0) as u16, ms: x[2].as_u64().unwrap_or(0) }).collect()).unwrap_or_default();
     let w = v["window"].as_u64().unwrap_or(450) as u32;
     if v["via"] == "decode1090" {
